@@ -1,7 +1,8 @@
 /-
-  AUDIT (reviewer): non-vacuity witnesses for Props/C16Alias.lean.  Kept in a file of its own because
-  Props/C16Alias.lean and Props/C16.lean BOTH declare `Lcapy.C16.derive_keeps_source` and therefore can not
-  be imported into one module (finding, see audit/AUDIT-C.md).
+  AUDIT (reviewer): non-vacuity witnesses for Props/C16Alias.lean.  Kept in a file of its own: when the audit
+  started Props/C16Alias.lean and Props/C16.lean BOTH declared `Lcapy.C16.derive_keeps_source` and could not be
+  imported into one module (finding, see audit/AUDIT-C.md; the owner renamed the C16Alias one to
+  `derivation_keeps_source` during the audit).
 -/
 import Lcapy.Props.C16Alias
 set_option linter.defProp false
@@ -16,7 +17,7 @@ open Lcapy.Alias
 def heap0 : Heap := ⟨[⟨false, true, false⟩, ⟨false, false, true⟩]⟩
 
 def nv_derive_keeps_all := derive_keeps_all heap0 ⟨0⟩ true 1 (by decide)
-def nv_derive_keeps_source := derive_keeps_source heap0 ⟨0⟩ true (by decide)
+def nv_derivation_keeps_source := derivation_keeps_source heap0 ⟨0⟩ true (by decide)
 def nv_derivations_keep_source := derivations_keep_source [true, false, true] heap0 ⟨0⟩ (by decide)
 
 end Alias
